@@ -371,12 +371,15 @@ var edgeDeltas = []struct {
 func runArrivals(rng *rand.Rand, extra sessionStats) (*session, error) {
 	big := 1 << 20
 	small := func(xs ...int) int {
-		if rng.IntN(4) == 0 {
+		switch x := rng.IntN(40); {
+		case x < 10:
 			return big
+		case x < 13:
+			return 0 // the documented extreme: serve none
 		}
 		return pick(rng, xs)
 	}
-	cfg := &sessCfg{RPM: small(3, 3, 4, 6), PerPeer: small(1, 2, 2, 3), DialData: small(1, 1, 2), MaxConc: pick(rng, []int{1, 2, 2, 3}),
+	cfg := &sessCfg{RPM: small(3, 3, 4, 6), PerPeer: small(1, 2, 2, 3), DialData: small(1, 1, 2), MaxConc: pick(rng, []int{1, 2, 2, 3, 1, 2, 2, 3, 1, 2, 0}),
 		Policy:   pick(rng, []string{"default", "default", "default", "default", "default", "default", "default", "default", "always", "never"}),
 		DialWait: noZeroWaitUnderRace(pick(rng, []time.Duration{0, 0, -1, 500 * time.Millisecond})), BadPort: 9}
 	cfg.Peers = genPeers(rng, 5, false)
@@ -467,18 +470,18 @@ func runArrivals(rng *rand.Rand, extra sessionStats) (*session, error) {
 			kind := rng.IntN(3)
 			switch kind {
 			case 0: // global window
-				if cfg.RPM < big && len(accG) >= cfg.RPM {
+				if cfg.RPM > 0 && cfg.RPM < big && len(accG) >= cfg.RPM {
 					base, p, limit = nth(accG, cfg.RPM), leastLoaded(now), cfg.RPM
 					class = "same"
 				}
 			case 1: // one peer's window
 				p0 := rng.IntN(len(cfg.Peers))
-				if l := perPeerAcc(p0); cfg.PerPeer < big && len(l) >= cfg.PerPeer {
+				if l := perPeerAcc(p0); cfg.PerPeer > 0 && cfg.PerPeer < big && len(l) >= cfg.PerPeer {
 					base, p, limit = nth(l, cfg.PerPeer), p0, cfg.PerPeer
 					class = "same"
 				}
 			case 2: // dial-data window
-				if cfg.DialData < big && len(accD) >= cfg.DialData {
+				if cfg.DialData > 0 && cfg.DialData < big && len(accD) >= cfg.DialData {
 					base, p, limit = nth(accD, cfg.DialData), leastLoaded(now), cfg.DialData
 					class = "foreign"
 				}
